@@ -10,6 +10,7 @@ import (
 	"testing"
 	"time"
 
+	"github.com/pion/turn/v5"
 	"github.com/pion/turn/v5/verifharness/sim"
 	"github.com/pion/turn/v5/verifharness/simnet"
 	"github.com/pion/turn/v5/verifharness/wire"
@@ -471,6 +472,151 @@ func runC18Schedule(t *testing.T, rng *rand.Rand, rec *sim.Rec, tier string, cas
 	rec.SetSample(map[string]any{"kind": "forced-schedule", "yield_point": point, "timer": which, "delay": delay.String(), "lifetime": life.String(), "perm_timeout": permTO.String(), "chan_timeout": chanTO.String()})
 }
 
+// runC18MassClose: several bound RFC 6062 data connections of one allocation end in the same
+// instant (peers close together, then the clients' ends): their teardown paths run concurrently
+// in the server.
+func runC18MassClose(t *testing.T, rng *rand.Rand, rec *sim.Rec, tier string, caseNo int) {
+	cfg := sim.Config{
+		Realm: "verif.test", Users: map[string]string{"alice": "pw-a", "bob": "pw-b"},
+		TCPListeners: []*net.TCPAddr{{IP: sim.ServerIP4, Port: 3478}},
+		UDPListeners: []*net.UDPAddr{{IP: sim.ServerIP4, Port: 3478}},
+	}
+	w, err := sim.NewWorld(cfg, rec, rng, true)
+	if err != nil {
+		t.Fatal(err)
+	}
+	defer w.Shutdown()
+	x := &c16{t: t, w: w, m: sim.NewModel(w), rng: rng, rec: rec}
+	c, err := w.NewTCPClient("t0", net.IPv4(10, 1, 1, 1).To4(), 6000, 0, "alice")
+	if err != nil {
+		t.Fatal(err)
+	}
+	if r := x.m.Allocate(c, sim.AllocOpts{Transport: 6}); r == nil || r.Class != wire.ClassSuccess {
+		rec.Inconclusive("tcp allocate failed")
+
+		return
+	}
+	n := 3 + rng.Intn(4)
+	for i := 0; i < n; i++ {
+		p := &tcpPeer{addr: &net.TCPAddr{IP: net.IPv4(10, 2, 0, byte(1+i)).To4(), Port: 8000 + i}}
+		p.l, _ = w.Net.ListenTCP(p.addr.IP, p.addr.Port)
+		x.peers = []*tcpPeer{p}
+		x.opConnect(c)
+	}
+	bound := 0
+	for _, mc := range x.conns {
+		code, data, _ := x.bind(c, mc.id, c.User)
+		if code == 0 {
+			mc.bound, mc.data = true, data
+			bound++
+		}
+	}
+	// everything ends at once
+	order := rng.Perm(len(x.conns))
+	for _, i := range order {
+		mc := x.conns[i]
+		if rng.Intn(2) == 0 {
+			_ = mc.peerEnd.Close()
+		} else if mc.data != nil {
+			_ = mc.data.Close()
+		}
+	}
+	w.Sleep(time.Second)
+	for _, mc := range x.conns {
+		_ = mc.peerEnd.Close()
+		if mc.data != nil {
+			_ = mc.data.Close()
+		}
+	}
+	w.Sleep(time.Second)
+	x.m.Audit(nil)
+	x.serverAlive(c, "mass-close")
+	rec.FP("mass-close/bound=%d", min(bound, 4))
+	rec.SetSample(map[string]any{"kind": "mass-close", "connections": n, "bound": bound})
+}
+
+// wrapConn lets a real-time case make the client's socket slow and failing.
+type slowFailConn struct {
+	*simnet.UDPConn
+	mu    sync.Mutex
+	n     int
+	slow  time.Duration
+	failN int
+}
+
+func (c *slowFailConn) WriteTo(b []byte, a net.Addr) (int, error) {
+	c.mu.Lock()
+	c.n++
+	n := c.n
+	c.mu.Unlock()
+	if c.failN > 0 && n >= c.failN {
+		time.Sleep(c.slow)
+
+		return 0, errors.New("injected write failure")
+	}
+
+	return c.UDPConn.WriteTo(b, a)
+}
+
+// runC18ClientClose (real time): Client.Close lands while a retransmission's socket write is slow
+// and then fails, for a transaction somebody is waiting on.
+func runC18ClientClose(t *testing.T, rng *rand.Rand, rec *sim.Rec, tier string, caseNo int) {
+	n := simnet.New()
+	defer n.CloseAll()
+	srv, err := sim.NewScriptedServer(n, sim.ServerIP4, 3478)
+	if err != nil {
+		t.Fatal(err)
+	}
+	defer srv.Close()
+	srv.SetHandler(nil) // silent: every request is retransmitted
+	logs := sim.NewLogSink()
+	rc, err := sim.NewRealClient(n, net.IPv4(10, 1, 0, 1).To4(), 5000, "10.0.0.1:3478", "alice", "pw-a", "verif.test", 5*time.Millisecond, logs, nil)
+	if err != nil {
+		t.Fatal(err)
+	}
+	_ = rc
+	// a second client on a wrapped socket (NewRealClient owns the plain one)
+	_ = rc.Conn.Close()
+	base, _ := n.ListenUDP(net.IPv4(10, 1, 0, 2).To4(), 5001)
+	wrapped := &slowFailConn{UDPConn: base, slow: time.Duration(5+rng.Intn(20)) * time.Millisecond, failN: 2 + rng.Intn(3)}
+	cl, err := newClientOn(wrapped, n, logs)
+	if err != nil {
+		t.Fatal(err)
+	}
+	if err := cl.Listen(); err != nil {
+		t.Fatal(err)
+	}
+	done := make(chan error, 4)
+	nTr := 1 + rng.Intn(3)
+	for i := 0; i < nTr; i++ {
+		go func() {
+			_, err := cl.SendBindingRequestTo(srv.Addr)
+			done <- err
+		}()
+	}
+	// Close while the failing retransmission write is in progress (RTO 5 ms: the 2nd..4th write)
+	time.Sleep(time.Duration(3+rng.Intn(25)) * time.Millisecond)
+	cl.Close()
+	for i := 0; i < nTr; i++ {
+		select {
+		case <-done:
+		case <-time.After(10 * time.Second):
+			rec.Violate("stress-wedged", "client-close", "a transaction did not return within 10 s of Client.Close")
+		}
+	}
+	time.Sleep(50 * time.Millisecond)
+	_ = base.Close()
+	rec.FP("client-close-during-failing-retransmission/n=%d", nTr)
+	rec.SetSample(map[string]any{"kind": "client-close-during-rtx", "transactions": nTr})
+}
+
+func newClientOn(conn net.PacketConn, n *simnet.Net, logs *sim.LogSink) (*turn.Client, error) {
+	return turn.NewClient(&turn.ClientConfig{
+		STUNServerAddr: "10.0.0.1:3478", TURNServerAddr: "10.0.0.1:3478", Conn: conn, Username: "alice", Password: "pw-a", Realm: "verif.test",
+		RTO: 5 * time.Millisecond, Net: &simnet.VNet{N: n, HostIP4: net.IPv4(10, 1, 0, 2).To4()}, LoggerFactory: logs,
+	})
+}
+
 func init() {
 	register("C18", PropDef{
 		Bubble: false, // chosen per case below
@@ -479,10 +625,14 @@ func init() {
 				return 6000
 			}
 
-			return 420
+			return 540
 		},
 		Run: func(t *testing.T, rng *rand.Rand, rec *sim.Rec, tier string, caseNo int) {
-			switch caseNo % 7 {
+			switch caseNo % 9 {
+			case 7:
+				inBubble(t, func(t *testing.T) { runC18MassClose(t, rng, rec, tier, caseNo) })
+			case 8:
+				runC18ClientClose(t, rng, rec, tier, caseNo)
 			case 0:
 				runC18Stress(t, rng, rec, tier, caseNo)
 			case 1:
